@@ -4,9 +4,15 @@ Proof: Props/C05.lean (escaping laws of the printer model; growing). Tie: W2X co
 non-namespace mode) must accept the output, find the language's DOCTYPE, and read back exactly the
 elements, attributes and character data the event parser delivered for the same bytes (exactly in
 canonical generation; modulo XML's own line-end / attribute normalisation and white space between
-markup otherwise)."""
+markup otherwise).
+Specification tie: every output sent to Expat is also read by the Lean specification of well-formed
+XML (`Spec.Xml.read`, driver verb SPECX, the reader `Props.C05.output_*` are stated with): same
+accept/reject verdict and, when both accept, the same DOCTYPE identifiers and the same elements,
+attributes and character data; plus a malformed stream (mutations of the outputs) on which both readers
+must give the same verdict (c05_util.py)."""
 import os, random
 import common, corr, wbgen, specgen, xmlcmp
+from props import c05_util
 
 SPECIAL = {2001, 2101, 2201, 2401, 2402}    # SyncML (embedded documents, MIME rewriting, CDATA), ActiveSync (binary elements)
 
@@ -51,6 +57,78 @@ def run(res, args):
     model, _ = corr.run_lines(drv, lines)
     xmls = [(i, bytes.fromhex(impl[i][6:].split()[0])) for i in range(len(lines)) if impl[i] and impl[i].startswith('R 0 ; ') and len(impl[i]) > 6]
     ex, _ = corr.run_lines(he, [f'EXPATN {x.hex()}' for _, x in xmls], env=b.env())
+
+    # the Lean specification of well-formed XML as a second reader of the same outputs, and of a malformed stream
+    sx, _ = corr.run_lines(drv, [f'SPECX {x.hex()}' for _, x in xmls])
+    spec_stats = {'outputs_compared': 0, 'outputs_both_accept': 0, 'outputs_both_reject': 0, 'outputs_outside_subset': 0,
+                  'mutants_compared': 0, 'mutants_both_accept': 0, 'mutants_both_reject': 0, 'mutants_outside_subset': 0}
+    spec_diff = []
+    for (i, xml), er, sr in zip(xmls, ex, sx):
+        if er is None or sr is None:
+            if sr is None:
+                spec_diff.append(('output', xml, er, sr, lines[i]))
+            continue
+        ve, vs = c05_util.view(er), c05_util.view(sr)
+        if ve != vs and c05_util.outside_subset(xml):
+            # (only names with characters outside ASCII occur here: a literal tag whose name the Fifth Edition admits and the Fourth does not)
+            spec_stats['outputs_outside_subset'] += 1; continue
+        spec_stats['outputs_compared'] += 1
+        spec_stats['outputs_both_accept' if ve[0] and vs[0] else 'outputs_both_reject'] += (ve[0] == vs[0])
+        if ve != vs:
+            spec_diff.append(('output', xml, er, sr, lines[i]))
+    pool = sorted({x for (_, x), er in zip(xmls, ex) if er and er.startswith('X 1') and len(x) < 4000})
+    muts, kinds = [], {}
+    for _ in range(6000 if quick else 150000):
+        if not pool:
+            break
+        m, k = c05_util.mutate(rng, rng.choice(pool))
+        if rng.random() < 0.2:
+            m, k2 = c05_util.mutate(rng, m); k = k + '+' + k2
+        muts.append((m, k))
+    mex, _ = corr.run_lines(he, [f'EXPATN {m.hex() or "-"}' for m, _ in muts], env=b.env())
+    msx, _ = corr.run_lines(drv, [f'SPECX {m.hex() or "-"}' for m, _ in muts])
+    for (m, k), er, sr in zip(muts, mex, msx):
+        if er is None or sr is None:
+            if sr is None:
+                spec_diff.append(('mutant ' + k, m, er, sr, None))
+            continue
+        why = c05_util.outside_subset(m)
+        if why:
+            spec_stats['mutants_outside_subset'] += 1; kinds['outside: ' + why.split(' (')[0]] = kinds.get('outside: ' + why.split(' (')[0], 0) + 1; continue
+        ve, vs = c05_util.view(er), c05_util.view(sr)
+        spec_stats['mutants_compared'] += 1
+        kinds[k.split('+')[0]] = kinds.get(k.split('+')[0], 0) + 1
+        spec_stats['mutants_both_accept' if ve[0] and vs[0] else 'mutants_both_reject'] += (ve[0] == vs[0])
+        # (Expat normalises white space in the public identifier, the specification reports the literal: compared on outputs only)
+        if ve[0] != vs[0] or (ve[0] and (ve[2] != vs[2] or ve[1][0] != vs[1][0])):
+            spec_diff.append(('mutant ' + k, m, er, sr, None))
+    # the statement of Props.C05.output_denotes_tree_partial, evaluated: where the model's tree is `xmlRepresentable`
+    # (compact / canonical generation) the document the theorem predicts must be what the specification
+    # reader gets from the IMPLEMENTATION's output
+    pos = {i: k for k, (i, _) in enumerate(xmls)}
+    vidx = [i for i in range(len(lines)) if meta[i][1][0] in (0, 2) and i in pos]
+    xv, _ = corr.run_lines(drv, ['XVIEW' + lines[i][3:] for i in vidx])
+    gap = []
+    view_stats = {'representable': 0, 'not_representable': 0, 'theorem_instances_confirmed': 0}
+    for i, vr in zip(vidx, xv):
+        if vr is None or not vr.startswith('V 1'):
+            view_stats['not_representable'] += 1
+            if sx[pos[i]] and sx[pos[i]].startswith('X 1'):
+                # (well-formed all the same: an embedded document, or a text node that is dropped or changed before it is written)
+                view_stats['not_representable_but_well_formed'] = view_stats.get('not_representable_but_well_formed', 0) + 1
+                gap.append(lines[i])
+            continue
+        view_stats['representable'] += 1
+        sr = sx[pos[i]]
+        if sr is not None and sr.startswith('X 1') and sr[4:] == vr[4:]:
+            view_stats['theorem_instances_confirmed'] += 1
+        else:
+            spec_diff.append(('theorem-instance', xmls[pos[i]][1], 'predicted: ' + vr[:500], sr, lines[i]))
+    res.coverage['xml_theorem_instances'] = view_stats
+    if os.environ.get('C05_GAP'):
+        open(os.environ['C05_GAP'], 'w').write('\n'.join(gap))
+    res.coverage['xml_specification_vs_expat'] = spec_stats
+    res.coverage['xml_specification_mutations'] = dict(sorted(kinds.items()))
 
     # namespace-aware second reading of the outputs of languages that have namespaces
     ns_idx = [k for k, (i, _) in enumerate(xmls) if langs.get(int(meta[i][0].split(' ; ')[1].split(' / ')[0].split()[2]), {}).get('ns') is not None]
@@ -112,7 +190,8 @@ def run(res, args):
     res.coverage['traces_validated_against_impl'] = len(lines) - len(corr_diff)
     res.coverage['rule'] = ('specification-generated documents of every language, corpus documents and SyncML Data/Meta/Type documents x generation tuples '
                             '(canonical/compact/indent x indent 0,2,4,255 x keep-ws); oracle: Expat (non-namespace) accepts the output, DOCTYPE matches the language, '
-                            'events read back equal the event parser\'s (exact in canonical mode); languages with namespaces: a namespace-aware second reading finds every token element in the namespace of its code page. SyncML/ActiveSync: well-formedness, DOCTYPE, CDATA balance and namespaces only')
+                            'events read back equal the event parser\'s (exact in canonical mode); languages with namespaces: a namespace-aware second reading finds every token element in the namespace of its code page. SyncML/ActiveSync: well-formedness, DOCTYPE, CDATA balance and namespaces only. '
+                            'Specification tie: Spec.Xml.read (SPECX) against Expat on every output (verdict, DOCTYPE identifiers, events) and on mutated outputs (verdict, events)')
     res.samples = [{'request': lines[i][:120], 'xml': xml[:200].decode('latin-1')} for i, xml in rng.sample(xmls, min(4, len(xmls)))]
     for idx, rc, err in inc_i:
         if idx < len(lines):
@@ -121,6 +200,11 @@ def run(res, args):
                 res.violation({'kind': 'sanitizer-or-crash', 'request': lines[idx], 'rc': rc1, 'stderr': err1[-2000:]}, f'crash-{idx}')
     for i, what, xml in viol[:3]:
         res.violation({'kind': 'xml-oracle', 'request': lines[i], 'what': what, 'xml': xml.decode('latin-1')[:3000], 'parser_events': meta[i][0][:3000]}, f'oracle-{i}')
+    for what, doc, er, sr, line in spec_diff[:3]:
+        # (a disagreement on an output of the unchanged tree is a defect of Spec/Xml.lean or of the comparison,
+        # not of the implementation: the theorems of Props/C05.lean are stated with that reader)
+        res.violation({'kind': 'xml-specification-vs-expat', 'what': what, 'xml': doc.decode('latin-1')[:3000], 'xml_hex': doc.hex()[:6000], 'request': line,
+                       'expat': (er or 'no answer')[:600], 'specification': (sr or 'no answer')[:600], 'disagreements': len(spec_diff)}, f'xmlspec-{what.split()[0]}')
     if corr_diff and not res.violations:
         i = corr_diff[0]
         res.violation({'kind': 'correspondence', 'stream': 'W2X', 'request': lines[i], 'impl': (impl[i] or '')[:600], 'model': (model[i] or '')[:600], 'differences': len(corr_diff)},
